@@ -10,8 +10,115 @@ EXPLANATION = ('proved on regenerated code: both direction generators end with a
                'validated by the oracle sweep only: off-diagonal points, affine independence, conditioning < 1e4, lengths of generated directions')
 
 
+INIT_V = r"""
+From Coq Require Import ZArith List Bool String.
+Require Import DV.Base.Prelude DV.Base.F64 DV.Spec.Schema DV.Lib.Corr.
+From G Require Import Gen_util Gen_solver.
+Import ListNotations.
+Open Scope Z_scope.
+(* the two points evaluated along one coordinate, as Model.as_absolute_coordinates produces them: xbase + min(max(sl, step), su) *)
+Definition coord_points (xb sl su delta : F) : list Z :=
+  let au := @py_init_at_upper_boundary ArithF64 su delta in
+  let al := @py_init_at_lower_boundary ArithF64 sl delta in
+  let clip := fun s => @add ArithF64 xb (@npmin ArithF64 (@npmax ArithF64 sl s) su) in
+  [to_bits (clip (@py_init_stepa ArithF64 au delta)); to_bits (clip (@py_init_stepb ArithF64 al au delta sl su))].
+"""
+
+
+def init_task(args):
+    """coordinate initialisation of real dfols.solve() runs with bounds (npt = 2n+1): per coordinate, the two points the solver
+    evaluates against the regenerated decision logic run on binary64"""
+    seed, count = args
+    import warnings
+    import numpy as np
+    import dfols, dfols.controller as dc
+    rng = np.random.default_rng(seed)
+    out = []
+    orig_init, orig_eo = dc.Controller.initialise_coordinate_directions, dc.Controller.evaluate_objective
+    cur = {}
+
+    def eo(self, x, ns, params):
+        if cur:
+            cur['xs'].append(np.array(x, dtype=float).copy())
+        return orig_eo(self, x, ns, params)
+
+    def init(self, number_of_samples, num_directions, params):
+        cur.update(xs=[], xb=np.array(self.model.xbase, dtype=float).copy(), sl=np.array(self.model.sl, dtype=float).copy(),
+                   su=np.array(self.model.su, dtype=float).copy(), delta=float(self.delta), n=int(self.n()))
+        try:
+            return orig_init(self, number_of_samples, num_directions, params)
+        finally:
+            n = cur['n']
+            if len(cur['xs']) >= 2 * n and not self.model.projections:
+                for k in range(n):
+                    out.append((cur['xb'][k], cur['sl'][k], cur['su'][k], cur['delta'], C.bits(cur['xs'][k][k]), C.bits(cur['xs'][n + k][k])))
+            cur.clear()
+    dc.Controller.initialise_coordinate_directions, dc.Controller.evaluate_objective = init, eo
+    try:
+        for _ in range(count):
+            n = int(rng.integers(1, 5))
+            x0 = rng.standard_normal(n) * 10.0 ** rng.uniform(-1, 1)
+            rb = 0.1 * max(float(np.max(np.abs(x0))), 1.0)
+            lo = x0 - rb * 10.0 ** rng.uniform(0.4, 1.5, n)
+            hi = x0 + rb * 10.0 ** rng.uniform(0.4, 1.5, n)
+            for j in range(n):                 # start on, within a hair of, or beyond a bound in some coordinates
+                u = rng.random()
+                if u < 0.2:
+                    x0[j] = lo[j]
+                elif u < 0.4:
+                    x0[j] = hi[j]
+                elif u < 0.5:
+                    x0[j] = hi[j] - rb * 10.0 ** rng.uniform(-9, -2.2)
+                elif u < 0.6:
+                    x0[j] = lo[j] + rb * 10.0 ** rng.uniform(-9, -2.2)
+                elif u < 0.7:
+                    x0[j] = hi[j] + rng.random()
+            A = rng.standard_normal((n + 1, n))
+            with warnings.catch_warnings(), np.errstate(all='ignore'):
+                warnings.simplefilter('ignore')
+                try:
+                    dfols.solve(lambda x: A.dot(x) - 1.0, x0, bounds=(lo, hi), npt=2 * n + 1, maxfun=2 * n + 1, do_logging=False)
+                except Exception:
+                    pass
+    finally:
+        dc.Controller.initialise_coordinate_directions, dc.Controller.evaluate_objective = orig_init, orig_eo
+    return out
+
+
+def correspondence(ctx):
+    from .. import modelio as IO
+    res = C.parallel(init_task, [(ctx.seed * 59 + i + 3, ctx.scale(40, 600)) for i in range(16)], timeout_each=600)
+    cases = []
+    for t, st, r in res:
+        if st != 'ok':
+            ctx.oblige('correspondence:coordinate_initialisation', False, 'implementation side failed: %s %s' % (st, r))
+            return
+        cases += r
+    cases = cases[:ctx.scale(1500, 20000)]
+    body = INIT_V + 'Definition exp_ : list (list Z) := [' + ';\n'.join('[%s; %s]' % (C.zlit(c[4]), C.zlit(c[5])) for c in cases) + '].\n'
+    body += 'Definition got_ : list (list Z) := [' + ';\n'.join('coord_points %s %s %s %s' % (IO.flit(c[0]), IO.flit(c[1]), IO.flit(c[2]), IO.flit(c[3])) for c in cases) + '].\n'
+    body += 'Fixpoint leq (a b : list Z) : bool := match a, b with [], [] => true | x :: a, y :: b => (x =? y) && leq a b | _, _ => false end.\n'
+    body += 'Eval vm_compute in map (fun p => if leq (fst p) (snd p) then 1 else 0) (combine got_ exp_).\n'
+    ok, out = C.coq_eval(ctx, 'cases_init', body, '')
+    if not ok:
+        ctx.oblige('correspondence:coordinate_initialisation', False, C.first_error(out))
+        return
+    ls = C.parse_eval_lists(out)
+    flags = ls[0] if ls else []
+    bad = [i for i, f in enumerate(flags) if f != 1]
+    ctx.cov['coordinate_pairs_from_real_solve_runs'] = len(flags)
+    ctx.cov['coordinate_pairs_next_to_a_bound'] = sum(1 for c in cases if c[2] < 0.01 * c[3] or c[1] > -0.01 * c[3])
+    if len(flags) != len(cases) or not cases:
+        ctx.oblige('correspondence:coordinate_initialisation', False, 'evaluated %d of %d recorded coordinates' % (len(flags), len(cases)))
+    elif bad:
+        c = cases[bad[0]]
+        ctx.oblige('correspondence:coordinate_initialisation[%d]' % bad[0], False, 'regenerated step logic and the implementation differ on %d of %d coordinates, first: xbase=%r sl=%r su=%r delta=%r' % (len(bad), len(cases), c[0], c[1], c[2], c[3]))
+    else:
+        ctx.oblige('correspondence:coordinate_initialisation(%d coordinates of real solve() runs, both points bit-exact on binary64)' % len(cases), True)
+
+
 def run(ctx):
-    return G.run(ctx, 'C14', LEVEL, GEN, PERRUN, TRUSTED, explanation=EXPLANATION)
+    return G.run(ctx, 'C14', LEVEL, GEN, PERRUN, TRUSTED, explanation=EXPLANATION, correspondence=correspondence, corr_needs=[])
 
 
 def replay(payload):
